@@ -45,7 +45,7 @@ BATCH = 40
 
 def plan(tier):
     if tier == "quick":
-        return [("repeat:" + s, 150) for s in SIM_LIST] + [("xproc", 12)]
+        return [("repeat:" + s, 400) for s in SIM_LIST] + [("xproc", 16)]
     return [("repeat:" + s, 8000) for s in SIM_LIST] + [("xproc", 400)]
 
 
